@@ -15,34 +15,34 @@ section
 variable {K : Type} [Field K] [LinearOrder K] [IsStrictOrderedRing K] [SqrtFn K]
 attribute [local instance 2000] scalarOfField
 
-/-- one dense row: `A_dot(k,*i) = *n` over the stored entries -/
+/-- one dense row: `A_dot(k,*i) += *n` over the stored entries (starting from zeros) -/
 def rowDense (n : Nat) (l : List (Nat × K)) : Array K :=
-  l.foldl (fun (acc : Array K) (cv : Nat × K) => acc.setIfInBounds (cv.1 - 1) cv.2) (Array.replicate n 0)
+  l.foldl (fun (acc : Array K) (cv : Nat × K) => acc.setIfInBounds (cv.1 - 1) (acc.getD (cv.1 - 1) 0 + cv.2)) (Array.replicate n 0)
 
 theorem rowDense_size (n : Nat) (l : List (Nat × K)) : (rowDense n l).size = n := by
   unfold rowDense
   have : ∀ (acc : Array K), acc.size = n →
-      (l.foldl (fun (acc : Array K) (cv : Nat × K) => acc.setIfInBounds (cv.1 - 1) cv.2) acc).size = n := by
+      (l.foldl (fun (acc : Array K) (cv : Nat × K) => acc.setIfInBounds (cv.1 - 1) (acc.getD (cv.1 - 1) 0 + cv.2)) acc).size = n := by
     induction l with
     | nil => intro acc h; exact h
     | cons a l ih => intro acc h; rw [List.foldl_cons]; exact ih _ (by simp [h])
   exact this _ (by simp)
 
 theorem rowDense_snoc (n : Nat) (l : List (Nat × K)) (cv : Nat × K) :
-    rowDense n (l ++ [cv]) = (rowDense n l).setIfInBounds (cv.1 - 1) cv.2 := by
-  unfold rowDense; rw [List.foldl_append]; rfl
+    rowDense n (l ++ [cv]) = (rowDense n l).setIfInBounds (cv.1 - 1) (vget (rowDense n l) (cv.1 - 1) + cv.2) := by
+  unfold rowDense vget; rw [List.foldl_append]; rfl
 
 theorem mget_dense (p : Problem K) (i j : Nat) :
     mget p.dense i j = vget (rowDense p.n (p.rows.getD i #[]).toList) j := by
   unfold mget Problem.dense vget rowDense
   by_cases hi : i < p.rows.size
-  · have h1 : (Array.map (fun r => Array.foldl (fun (acc : Array K) (x : Nat × K) => acc.setIfInBounds (x.1 - 1) x.2)
+  · have h1 : (Array.map (fun r => Array.foldl (fun (acc : Array K) (x : Nat × K) => acc.setIfInBounds (x.1 - 1) (acc.getD (x.1 - 1) 0 + x.2))
         (Array.replicate p.n 0) r) p.rows).getD i #[]
-        = Array.foldl (fun (acc : Array K) (x : Nat × K) => acc.setIfInBounds (x.1 - 1) x.2)
+        = Array.foldl (fun (acc : Array K) (x : Nat × K) => acc.setIfInBounds (x.1 - 1) (acc.getD (x.1 - 1) 0 + x.2))
           (Array.replicate p.n 0) (p.rows.getD i #[]) := by
       simp [Array.getD, hi]
     rw [h1, ← Array.foldl_toList]
-  · have h1 : (Array.map (fun r => Array.foldl (fun (acc : Array K) (x : Nat × K) => acc.setIfInBounds (x.1 - 1) x.2)
+  · have h1 : (Array.map (fun r => Array.foldl (fun (acc : Array K) (x : Nat × K) => acc.setIfInBounds (x.1 - 1) (acc.getD (x.1 - 1) 0 + x.2))
         (Array.replicate p.n 0) r) p.rows).getD i #[] = #[] := by
       simp [Array.getD, hi]
     have h2 : p.rows.getD i #[] = #[] := by simp [Array.getD, hi]
@@ -65,10 +65,9 @@ theorem rowDense_zero (n : Nat) (l : List (Nat × K)) (j : Nat) (hj : ∀ cv ∈
     rw [if_neg (fun h => h1 h.1)]
     exact ih (fun cv' h => hj cv' (by simp [h]))
 
-/-- `Σ_j dense(i,j)·x_j` equals the sum over the stored entries when the columns of the row are
-    distinct and inside `1..n` -/
-theorem rowDense_dot (n : Nat) (l : List (Nat × K)) (x : Nat → K)
-    (hnd : (l.map (·.1)).Nodup) (hr : ∀ cv ∈ l, 1 ≤ cv.1 ∧ cv.1 ≤ n) :
+/-- `Σ_j dense(i,j)·x_j` equals the sum over the stored entries when the columns of the row are inside `1..n`
+    (repeated column indices allowed: the dense row holds the SUM of their coefficients) -/
+theorem rowDense_dot' (n : Nat) (l : List (Nat × K)) (x : Nat → K) (hr : ∀ cv ∈ l, 1 ≤ cv.1 ∧ cv.1 ≤ n) :
     ∑ j ∈ range n, vget (rowDense n l) j * x j
       = l.foldl (fun (s : K) (cv : Nat × K) => s + cv.2 * x (cv.1 - 1)) 0 := by
   induction l using List.reverseRecOn with
@@ -77,30 +76,30 @@ theorem rowDense_dot (n : Nat) (l : List (Nat × K)) (x : Nat → K)
     refine Finset.sum_eq_zero fun j _ => ?_
     rw [rowDense_zero n [] j (by simp), zero_mul]
   | append_singleton l cv ih =>
-    rw [List.map_append, List.nodup_append] at hnd
-    obtain ⟨hnd1, _, hdis⟩ := hnd
     have hr1 : ∀ cv' ∈ l, 1 ≤ cv'.1 ∧ cv'.1 ≤ n := fun cv' h => hr cv' (by simp [h])
     obtain ⟨hc1, hc2⟩ := hr cv (by simp)
-    rw [List.foldl_append, ← ih hnd1 hr1, rowDense_snoc]
+    rw [List.foldl_append, ← ih hr1, rowDense_snoc]
     simp only [List.foldl_cons, List.foldl_nil]
-    have hz : vget (rowDense n l) (cv.1 - 1) = 0 := by
-      apply rowDense_zero
-      intro cv' hcv' e
-      have h1 := hr1 cv' hcv'
-      have : cv'.1 = cv.1 := by omega
-      exact hdis cv'.1 (List.mem_map.2 ⟨cv', hcv', rfl⟩) cv.1 (by simp) this
     have hcn : cv.1 - 1 < n := by omega
     have hsz := rowDense_size n l
-    have : ∀ j ∈ range n, vget ((rowDense n l).setIfInBounds (cv.1 - 1) cv.2) j * x j
+    have : ∀ j ∈ range n,
+        vget ((rowDense n l).setIfInBounds (cv.1 - 1) (vget (rowDense n l) (cv.1 - 1) + cv.2)) j * x j
         = vget (rowDense n l) j * x j + (if j = cv.1 - 1 then cv.2 * x (cv.1 - 1) else 0) := by
       intro j hj
       rw [vget_set]
       by_cases h : cv.1 - 1 = j
       · subst h
-        rw [if_pos ⟨rfl, by rw [hsz]; exact hcn⟩, if_pos rfl, hz]; ring
+        rw [if_pos ⟨rfl, by rw [hsz]; exact hcn⟩, if_pos rfl]; ring
       · rw [if_neg (fun h' => h h'.1), if_neg (fun h' => h h'.symm), add_zero]
     rw [Finset.sum_congr rfl this, Finset.sum_add_distrib, Finset.sum_ite_eq' (range n) (cv.1 - 1)]
     rw [if_pos (Finset.mem_range.2 hcn)]
+
+/-- the form with the (no longer needed) no-repeat hypothesis, kept for its callers -/
+theorem rowDense_dot (n : Nat) (l : List (Nat × K)) (x : Nat → K)
+    (hnd : (l.map (·.1)).Nodup) (hr : ∀ cv ∈ l, 1 ≤ cv.1 ∧ cv.1 ≤ n) :
+    ∑ j ∈ range n, vget (rowDense n l) j * x j
+      = l.foldl (fun (s : K) (cv : Nat × K) => s + cv.2 * x (cv.1 - 1)) 0 :=
+  rowDense_dot' n l x hr
 
 /-- the rows `Adj` builds for a full solver reproduce `A_dot` -/
 theorem rowDense_full (n : Nat) (f : Nat → K) (j : Nat) (hj : j < n) :
@@ -119,7 +118,8 @@ theorem rowDense_full (n : Nat) (f : Nat → K) (j : Nat) (hj : j < n) :
       simp only [Nat.add_sub_cancel]
       by_cases h : n' = j
       · subst h
-        rw [if_pos ⟨rfl, by rw [rowDense_size]; omega⟩, if_pos (by omega)]
+        rw [if_pos ⟨rfl, by rw [rowDense_size]; omega⟩, if_pos (by omega), ih (by omega) n', if_neg (lt_irrefl _),
+          zero_add]
       · rw [if_neg (fun h' => h h'.1), ih (by omega) j]
         by_cases h2 : j < n'
         · rw [if_pos h2, if_pos (by omega)]
